@@ -861,3 +861,13 @@ pub fn jf32(x: f32) -> Value {
         json!(format!("{}", x))
     }
 }
+
+/// Development aid (oracle audit): when VERIF_TRACE=<file> is set, monitors append raw events.
+pub fn trace(line: impl FnOnce() -> String) {
+    use std::io::Write;
+    static TRACE: std::sync::OnceLock<Option<Mutex<std::fs::File>>> = std::sync::OnceLock::new();
+    let t = TRACE.get_or_init(|| std::env::var("VERIF_TRACE").ok().and_then(|p| std::fs::OpenOptions::new().create(true).append(true).open(p).ok()).map(Mutex::new));
+    if let Some(f) = t {
+        let _ = writeln!(f.lock().unwrap(), "{}", line());
+    }
+}
